@@ -99,6 +99,11 @@ PAIR_POOL = [
     "count = 5\ncount.label = 'five'\nnums = [1]\nnums.size = 1\n",
     "count = 5\nprint(count.label + '!')\nnums = [1]\nprint(nums.size + 1)\n",
     # a standard module whose import runs a program that ends in sys.exit() (TIFA really imports modules it has no description of)
+    # an attribute put on an element of a list of literals / asked of one
+    "x = [1]\nx[0].foo = 5\nprint(x)\n",
+    "y = [2]\ny[0].foo()\nprint(y)\n",
+    "z = [1.5]\nz[0].bar = 'b'\nprint(z)\n",
+    "w = [2.5]\nprint(w[0].bar + 1)\n",
     "import unittest.__main__\n",
     "box = []\nbox.append(box)\ntotal = box + 1\n",
     "'abc'.upper()\n[1, 2].pop()\n",
